@@ -26,7 +26,7 @@ TECHNIQUE = ('explicit-state BFS over query-operation histories on the real Grap
 RULE = ('case = (model, history of operations, operation); models: all labelled graphs on <=4 attributes x presentations '
         '{edges, maximal} x size patterns x elimination orders {None, reversed} x value classes {generic, -inf cell} x totals; '
         'operations: project-all (every ordered tuple incl. () and full, as tuple and as list), many-all, many-each, krondot '
-        '(menu of query matrices), datavector (both flatten modes), saveload, assign-bp. BFS runs to the fixpoint of the state '
+        '(menu of query matrices incl. single weighted rows), datavector (both flatten modes), saveload, assign-bp, synthetic (record generation, the library\'s own consumer of project). BFS runs to the fixpoint of the state '
         'graph. non-trivial = model with >= 2 cliques; distinct = digest of (model, history, op).')
 LEVEL_TEXT = ('The reachable cache states of a model object are explored exhaustively (BFS to fixpoint, states rebuilt by replaying '
               'the history on a fresh object) and in each of them every query path of the API is exercised on every ordered attribute '
@@ -36,7 +36,7 @@ LEVEL_NOTE = ('Models bounded by 4 attributes (5-attribute chain/star/cycle adde
 ASSUMPTIONS = ['pickle round trip happens inside /verif/.scratch and is removed afterwards',
                'tolerance rtol 1e-7, atol 1e-9*total; sums compared at 1e-9*total']
 
-OPS = ['project-all', 'many-all', 'many-each', 'krondot', 'datavector', 'saveload', 'assign-bp']
+OPS = ['project-all', 'many-all', 'many-each', 'krondot', 'datavector', 'saveload', 'assign-bp', 'synthetic']
 
 
 def hashseeds(tier):
@@ -84,6 +84,8 @@ def matrices_menu(sizes, kind, rng):
             out.append(np.ones((1, n)))
         elif kd == 'prefix':
             out.append(np.tril(np.ones((n, n))))
+        elif kd == 'row':
+            out.append(np.arange(1.0, n + 1.0)[None, :] * (0.5 if i % 2 == 0 else -2.0))   # one row, all entries non-zero, not the all-ones row
         else:
             out.append(np.random.RandomState(1000 + i + n).randn(2, n))
     return out
@@ -191,7 +193,7 @@ def apply_op(w, m, op, tier, acc):
     elif op == 'krondot' and getattr(w, 'vclass', '') == 'x400':
         pass   # krondot works in probability space (exp of the potentials): magnitudes beyond ~700 overflow by design; C02 has no magnitude clause
     elif op == 'krondot':
-        kinds = ['mixed', 'identity', 'ones', 'prefix', 'generic']
+        kinds = ['mixed', 'identity', 'ones', 'prefix', 'generic', 'row', [['row', 'identity', 'ones', 'row', 'prefix'][j % 5] for j in range(len(attrs))]]
         if tier == 'thorough' and len(attrs) == 3:
             kinds = kinds + [list(p) for p in itertools.product(['identity', 'ones', 'prefix', 'generic'], repeat=3)]
         src = ''.join(O.LETTERS[i] for i in range(len(attrs)))
@@ -226,6 +228,19 @@ def apply_op(w, m, op, tier, acc):
             check_factor(w, m2.project(t), t, 'load(save(model)).project(%r)' % (t,), fails)
             acc.evals += 1
         m = m2
+    elif op == 'synthetic':
+        # the library's own consumer of project(): generating records must leave the model as it was (later answers are checked by the BFS)
+        from .. import meas as M
+        st = np.random.get_state()
+        np.random.seed(7)
+        try:
+            with M.quiet():
+                ds = m.synthetic_data(rows=25, method='round')
+        finally:
+            np.random.set_state(st)
+        if ds.df.shape != (25, len(attrs)):
+            fails.append('synthetic_data(rows=25) returned a frame of shape %r' % (ds.df.shape,))
+        acc.evals += 1
     elif op == 'assign-bp':
         m.marginals = m.belief_propagation(m.potentials)
         for cl in m.cliques:
